@@ -12,7 +12,7 @@ mutual
 def finalCV (ff : Nat → Bytes) : CV → Bytes
   | .dbl b => dblText (ff b)
   | .int i => fmtInt i
-  | .lit v => 34 :: (qEsc v ++ [34])
+  | .lit v => quoteVal stdCfg v
   | .ident s => s
   | .list l => 91 :: (finalItems ff l ++ [93])
   | .map m => 123 :: (finalPairs ff m ++ [10, 125])
@@ -47,11 +47,12 @@ theorem Term.stopsId {r : Bytes} (h : Term r) : stops isIdChar r := by
   | cons c r => rcases h with h | h | h | h | h | h | h <;> subst h <;> simp [stops, isIdChar, isLetter, isDigit]
 
 /-- first bytes of values -/
-def ValStart (c : Nat) : Prop := isDigit c = true ∨ c = 45 ∨ c = 34 ∨ isLetter c = true ∨ c = 91 ∨ c = 123
+def ValStart (c : Nat) : Prop := isDigit c = true ∨ c = 45 ∨ c = 34 ∨ c = 39 ∨ isLetter c = true ∨ c = 91 ∨ c = 123
 
 theorem ValStart.notWs {c : Nat} (h : ValStart c) : isWs c = false := by
-  rcases h with h | h | h | h | h | h
+  rcases h with h | h | h | h | h | h | h
   · simp [isDigit] at h; simp [isWs]; omega
+  · subst h; rfl
   · subst h; rfl
   · subst h; rfl
   · simp [isLetter] at h; simp [isWs]; omega
@@ -96,7 +97,7 @@ mutual
 def GoodCV (ff : Nat → Bytes) (pf : Bytes → Nat) : CV → Prop
   | .dbl b => Nonempty (FShape (ff b)) ∧ pf (dblText (ff b)) = b
   | .int i => -9223372036854775808 ≤ i ∧ i < 9223372036854775808
-  | .lit v => LexSafe v
+  | .lit v => Representable v = true
   | .ident s => IdentOK s
   | .list l => GoodItems ff pf l
   | .map m => GoodPairs ff pf m
@@ -203,12 +204,14 @@ theorem finalCV_head (ff : Nat → Bytes) (pf : Bytes → Nat) (cv : CV) (h : Go
   | int i =>
     obtain ⟨c, r, hcr, hc⟩ := fmtInt_head i
     exact ⟨c, r, by simp [finalCV, hcr], by rcases hc with hc | hc; exact Or.inl hc; exact Or.inr (Or.inl hc)⟩
-  | lit v => exact ⟨34, _, rfl, Or.inr (Or.inr (Or.inl rfl))⟩
+  | lit v =>
+    obtain ⟨c, t, hct, hc⟩ := quoteVal_head v
+    exact ⟨c, t, by simp [finalCV, hct], by rcases hc with hc | hc; exact Or.inr (Or.inr (Or.inl hc)); exact Or.inr (Or.inr (Or.inr (Or.inl hc)))⟩
   | ident s =>
     obtain ⟨c, r, hs, hc, _⟩ := (by simpa [GoodCV] using h : IdentOK s)
-    exact ⟨c, r, by simp [finalCV, hs], Or.inr (Or.inr (Or.inr (Or.inl hc)))⟩
-  | list l => exact ⟨91, _, rfl, Or.inr (Or.inr (Or.inr (Or.inr (Or.inl rfl))))⟩
-  | map m => exact ⟨123, _, rfl, Or.inr (Or.inr (Or.inr (Or.inr (Or.inr rfl))))⟩
+    exact ⟨c, r, by simp [finalCV, hs], Or.inr (Or.inr (Or.inr (Or.inr (Or.inl hc))))⟩
+  | list l => exact ⟨91, _, rfl, Or.inr (Or.inr (Or.inr (Or.inr (Or.inr (Or.inl rfl)))))⟩
+  | map m => exact ⟨123, _, rfl, Or.inr (Or.inr (Or.inr (Or.inr (Or.inr (Or.inr rfl)))))⟩
   | unset => simp [GoodCV] at h
 
 end Dump
@@ -248,10 +251,10 @@ theorem readCV_num_dbl' (pf : Bytes → Nat) (f : Nat) (t rest r' : Bytes) (b : 
   obtain ⟨c, r, rfl, hc⟩ := hh
   exact readCV_num_dbl pf f c _ r' b hc hn
 
-theorem readCV_lit (pf : Bytes → Nat) (f : Nat) (r : Bytes) :
-    readCV pf (f + 1) (34 :: r) = (readLiteral (34 :: r)).map fun p => (CV.lit p.1, skipIndent p.2) := by
+theorem readCV_lit (pf : Bytes → Nat) (f c : Nat) (r : Bytes) (hc : c = 34 ∨ c = 39) :
+    readCV pf (f + 1) (c :: r) = (readLiteral (c :: r)).map fun p => (CV.lit p.1, skipIndent p.2) := by
   rw [readCV]
-  simp [skipWs, dropP, isWs]
+  rcases hc with h | h <;> subst h <;> simp [skipWs, dropP, isWs]
 
 theorem letter_facts {c : Nat} (h : isLetter c = true) : isWs c = false ∧ c ≠ 91 ∧ c ≠ 123 ∧ c ≠ 34 ∧ c ≠ 39 := by
   simp [isLetter] at h
@@ -280,8 +283,9 @@ theorem skipIndent_vs {c : Nat} (h : ValStart c) (s : Bytes) : skipIndent (c :: 
   dropP_cons_false _ _ _ h.notIndent
 
 theorem ValStart.ne93 {c : Nat} (h : ValStart c) : c ≠ 93 := by
-  rcases h with h | h | h | h | h | h
+  rcases h with h | h | h | h | h | h | h
   · simp [isDigit] at h; omega
+  · omega
   · omega
   · omega
   · simp [isLetter] at h; omega
@@ -289,8 +293,9 @@ theorem ValStart.ne93 {c : Nat} (h : ValStart c) : c ≠ 93 := by
   · omega
 
 theorem ValStart.ne125 {c : Nat} (h : ValStart c) : c ≠ 125 := by
-  rcases h with h | h | h | h | h | h
+  rcases h with h | h | h | h | h | h | h
   · simp [isDigit] at h; omega
+  · omega
   · omega
   · omega
   · simp [isLetter] at h; omega
@@ -367,11 +372,12 @@ theorem readCV_leaf (ff : Nat → Bytes) (pf : Bytes → Nat) (cv : CV) (hleaf :
     simp only [finalCV, reread]
     exact readCV_num_int' pf f _ rest rest i ⟨c, r, hcr, hc⟩ hn
   | lit v =>
-    have hs : LexSafe v := by simpa [GoodCV] using hg
+    have hs : Representable v = true := by simpa [GoodCV] using hg
     simp only [finalCV, reread]
-    have := readLiteral_final v rest hs
-    rw [show (34 :: (qEsc v ++ [34]) ++ rest) = 34 :: ((qEsc v ++ [34]) ++ rest) from rfl] at this ⊢
-    rw [readCV_lit, this]; rfl
+    obtain ⟨c, t, hct, hc⟩ := quoteVal_head v
+    have := readLiteral_quoteVal v rest hs
+    rw [hct] at this ⊢
+    rw [List.cons_append, readCV_lit pf f c _ hc, ← List.cons_append, this]; rfl
   | ident s =>
     obtain ⟨c, r, hs, hc, hr⟩ := (by simpa [GoodCV] using hg : IdentOK s)
     subst hs
@@ -569,199 +575,27 @@ end Dump
 namespace Dump
 
 mutual
-def cvToks (ff : Nat → Bytes) : CV → List Tok
-  | .dbl b => (dblText (ff b)).map tk
-  | .int i => (fmtInt i).map tk
-  | .lit v => litToks v
-  | .ident s => s.map tk
-  | .list l => .plain 91 :: (itemsToks ff l ++ [.plain 93])
-  | .map m => .plain 123 :: (pairsToks ff m ++ [.plain 10, .plain 125])
-  | .unset => []
-def itemsToks (ff : Nat → Bytes) : List CV → List Tok
-  | [] => []
-  | v :: rest => cvToks ff v ++ ((if !rest.isEmpty then [.plain 44, .plain 32] else []) ++ itemsToks ff rest)
-def pairsToks (ff : Nat → Bytes) : List (CV × CV) → List Tok
-  | [] => []
-  | (k, v) :: rest =>
-    .plain 10 :: .plain 9 :: (cvToks ff k ++ (.plain 58 :: .plain 32 ::
-      (cvToks ff v ++ ((if !rest.isEmpty then [.plain 44, .plain 32] else []) ++ pairsToks ff rest))))
-end
-
-theorem ws_bytes_plain (s : Bytes) (h : s.all (· != 38) = true) : ws stdCfg s = rend r0 (s.map Tok.plain) := by
-  rw [ws_plain]
-  congr 1
-  induction s with
-  | nil => rfl
-  | cons c s ih =>
-    simp only [List.all_cons, Bool.and_eq_true, bne_iff_ne, ne_eq] at h
-    simp [tk, h.1, ih (by simpa using h.2)]
-
-mutual
-theorem printCV_toks (ff : Nat → Bytes) : ∀ cv : CV, printCV stdCfg ff cv = rend r0 (cvToks ff cv)
-  | .dbl b => by simp [printCV, cvToks, ws_plain]
-  | .int i => by simp [printCV, cvToks, ws_plain]
-  | .lit v => by simp [printCV, cvToks, ws_quoteVal]
-  | .ident s => by simp [printCV, cvToks, ws_plain]
-  | .list l => by
-    simp only [printCV, cvToks, rend, rend_append, printItems_toks ff l]
-    rw [ws_bytes_plain [91] (by decide), ws_bytes_plain [93] (by decide)]
-    simp [rend, r0]
-  | .map m => by
-    simp only [printCV, cvToks, rend, rend_append, printPairs_toks ff m]
-    rw [ws_bytes_plain [123] (by decide), ws_bytes_plain [10] (by decide), ws_bytes_plain [125] (by decide)]
-    simp [rend, r0]
-  | .unset => by simp [printCV, cvToks, rend]
-theorem printItems_toks (ff : Nat → Bytes) : ∀ l : List CV, printCVList stdCfg ff l = rend r0 (itemsToks ff l)
-  | [] => by simp [printCVList, itemsToks, rend]
+theorem printCV_final (ff : Nat → Bytes) : ∀ cv : CV, printCV stdCfg ff cv = finalCV ff cv
+  | .dbl b => by simp [printCV, finalCV, ws]
+  | .int i => by simp [printCV, finalCV, ws]
+  | .lit v => by simp [printCV, finalCV, ws]
+  | .ident s => by simp [printCV, finalCV, ws]
+  | .list l => by simp [printCV, finalCV, ws, printItems_final ff l]
+  | .map m => by simp [printCV, finalCV, ws, printPairs_final ff m]
+  | .unset => by simp [printCV, finalCV]
+theorem printItems_final (ff : Nat → Bytes) : ∀ l : List CV, printCVList stdCfg ff l = finalItems ff l
+  | [] => by simp [printCVList, finalItems]
   | v :: rest => by
-    simp only [printCVList, itemsToks, rend_append, printCV_toks ff v, printItems_toks ff rest]
-    cases rest with
-    | nil => simp [rend]
-    | cons w ws' =>
-      simp only [List.isEmpty_cons, Bool.not_false, if_true]
-      rw [ws_bytes_plain [44, 32] (by decide)]
-      simp [rend, r0]
-theorem printPairs_toks (ff : Nat → Bytes) : ∀ m : List (CV × CV), printCVMap stdCfg ff m = rend r0 (pairsToks ff m)
-  | [] => by simp [printCVMap, pairsToks, rend]
+    simp only [printCVList, finalItems, printCV_final ff v, printItems_final ff rest, ws]
+    simp
+theorem printPairs_final (ff : Nat → Bytes) : ∀ m : List (CV × CV), printCVMap stdCfg ff m = finalPairs ff m
+  | [] => by simp [printCVMap, finalPairs]
   | (k, v) :: rest => by
-    simp only [printCVMap, pairsToks, rend, rend_append, printCV_toks ff k, printCV_toks ff v, printPairs_toks ff rest]
-    rw [ws_bytes_plain [10, 9] (by decide), ws_bytes_plain [58, 32] (by decide)]
-    cases rest with
-    | nil => simp [rend, r0]
-    | cons w ws' =>
-      simp only [List.isEmpty_cons, Bool.not_false, if_true]
-      rw [ws_bytes_plain [44, 32] (by decide)]
-      simp [rend, r0]
+    simp only [printCVMap, finalPairs, printCV_final ff k, printCV_final ff v, printPairs_final ff rest, ws]
+    simp
 end
 
-mutual
-theorem rendF_cvToks (ff : Nat → Bytes) : ∀ cv : CV, rend rF (cvToks ff cv) = finalCV ff cv
-  | .dbl b => by simp [cvToks, finalCV, rendF_plain]
-  | .int i => by simp [cvToks, finalCV, rendF_plain]
-  | .lit v => by simp [cvToks, finalCV, rendF_litToks]
-  | .ident s => by simp [cvToks, finalCV, rendF_plain]
-  | .list l => by simp [cvToks, finalCV, rend, rend_append, rF, rendF_itemsToks ff l]
-  | .map m => by simp [cvToks, finalCV, rend, rend_append, rF, rendF_pairsToks ff m]
-  | .unset => by simp [cvToks, finalCV, rend]
-theorem rendF_itemsToks (ff : Nat → Bytes) : ∀ l : List CV, rend rF (itemsToks ff l) = finalItems ff l
-  | [] => by simp [itemsToks, finalItems, rend]
-  | v :: rest => by
-    simp only [itemsToks, finalItems, rend_append, rendF_cvToks ff v, rendF_itemsToks ff rest]
-    cases rest <;> simp [rend, rF]
-theorem rendF_pairsToks (ff : Nat → Bytes) : ∀ m : List (CV × CV), rend rF (pairsToks ff m) = finalPairs ff m
-  | [] => by simp [pairsToks, finalPairs, rend]
-  | (k, v) :: rest => by
-    simp only [pairsToks, finalPairs, rend, rend_append, rF, rendF_cvToks ff k, rendF_cvToks ff v, rendF_pairsToks ff rest]
-    cases rest <;> simp [rend, rF]
-end
-
-/- values whose dumped text is free of accidental placeholder matches -/
-mutual
-def SafeCV (ff : Nat → Bytes) : CV → Prop
-  | .dbl b => textInert (dblText (ff b)) = true
-  | .int _ => True
-  | .lit v => DumpSafe v = true
-  | .ident s => textInert s = true
-  | .list l => SafeItems ff l
-  | .map m => SafePairs ff m
-  | .unset => True
-def SafeItems (ff : Nat → Bytes) : List CV → Prop
-  | [] => True
-  | v :: r => SafeCV ff v ∧ SafeItems ff r
-def SafePairs (ff : Nat → Bytes) : List (CV × CV) → Prop
-  | [] => True
-  | (k, v) :: r => SafeCV ff k ∧ SafeCV ff v ∧ SafePairs ff r
-end
-
-theorem textInert_digits (ds : Bytes) (h : ds.all isDigit = true) : textInert ds = true := by
-  induction ds with
-  | nil => rfl
-  | cons d ds ih =>
-    simp only [List.all_cons, Bool.and_eq_true] at h
-    have hd := h.1
-    simp [isDigit] at hd
-    have h1 : d ≠ 35 := by omega
-    have h2 : d ≠ 92 := by omega
-    have := ih h.2
-    simp only [textInert] at this ⊢
-    simp [h1, h2, this]
-
-theorem textInert_append (a b : Bytes) : textInert (a ++ b) = (textInert a && textInert b) := by
-  simp [textInert]
-
-theorem textInert_fmtInt (i : Int) : textInert (fmtInt i) = true := by
-  cases i with
-  | ofNat n => exact textInert_digits _ (decDigits_all n)
-  | negSucc n =>
-    have := textInert_digits _ (decDigits_all (n + 1))
-    simp only [fmtInt, textInert] at this ⊢
-    simp [this]
-
-theorem clean_plain_inert (cs : Bytes) (B : List Tok) (h : textInert cs = true) (h38 : cs.all (· != 38) = true) :
-    clean (cs.map Tok.plain ++ B) = clean B := by
-  apply clean_inert
-  induction cs with
-  | nil => rfl
-  | cons c cs ih =>
-    simp only [textInert, List.all_cons, Bool.and_eq_true, bne_iff_ne, ne_eq] at h h38
-    have := ih (by simpa [textInert] using h.2) (by simpa using h38.2)
-    simp [inertToks, h.1.1, h.1.2, h38.1, this]
-
-theorem clean_text (s : Bytes) (B : List Tok) (h : textInert s = true) : clean (s.map tk ++ B) = clean B :=
-  clean_inert _ _ (inertToks_map_tk s h)
-
-theorem clean_plain_cons (c : Nat) (X : List Tok) (h : (c != 35 && c != 92 && c != 38) = true) :
-    clean (Tok.plain c :: X) = clean X := by
-  have := clean_inert [Tok.plain c] X (by simp [inertToks, h])
-  simpa using this
-
-mutual
-theorem clean_cvToks (ff : Nat → Bytes) : ∀ (cv : CV), SafeCV ff cv → ∀ B, clean (cvToks ff cv ++ B) = clean B
-  | .dbl b, h, B => by simp only [cvToks]; exact clean_text _ B (by simpa [SafeCV] using h)
-  | .int i, _, B => by simp only [cvToks]; exact clean_text _ B (textInert_fmtInt i)
-  | .lit v, h, B => by simp only [cvToks]; exact clean_lit v B (by simpa [SafeCV] using h)
-  | .ident s, h, B => by simp only [cvToks]; exact clean_text _ B (by simpa [SafeCV] using h)
-  | .list l, h, B => by
-    have h' : SafeItems ff l := by simpa [SafeCV] using h
-    simp only [cvToks, List.cons_append, List.append_assoc, List.nil_append]
-    rw [clean_plain_cons 91 _ (by decide), clean_itemsToks ff l h' _, clean_plain_cons 93 _ (by decide)]
-  | .map m, h, B => by
-    have h' : SafePairs ff m := by simpa [SafeCV] using h
-    simp only [cvToks, List.cons_append, List.append_assoc, List.nil_append]
-    rw [clean_plain_cons 123 _ (by decide), clean_pairsToks ff m h' _, clean_plain_cons 10 _ (by decide),
-      clean_plain_cons 125 _ (by decide)]
-  | .unset, _, B => by simp [cvToks]
-theorem clean_itemsToks (ff : Nat → Bytes) : ∀ (l : List CV), SafeItems ff l → ∀ B, clean (itemsToks ff l ++ B) = clean B
-  | [], _, B => by simp [itemsToks]
-  | v :: rest, h, B => by
-    obtain ⟨hv, hr⟩ : SafeCV ff v ∧ SafeItems ff rest := by simpa [SafeItems] using h
-    simp only [itemsToks, List.append_assoc]
-    rw [clean_cvToks ff v hv]
-    cases rest with
-    | nil => simp [itemsToks]
-    | cons w ws' =>
-      simp only [List.isEmpty_cons, Bool.not_false, if_true, List.cons_append, List.nil_append]
-      rw [clean_plain_cons 44 _ (by decide), clean_plain_cons 32 _ (by decide), clean_itemsToks ff (w :: ws') hr B]
-theorem clean_pairsToks (ff : Nat → Bytes) : ∀ (m : List (CV × CV)), SafePairs ff m → ∀ B, clean (pairsToks ff m ++ B) = clean B
-  | [], _, B => by simp [pairsToks]
-  | (k, v) :: rest, h, B => by
-    obtain ⟨hk, hv, hr⟩ : SafeCV ff k ∧ SafeCV ff v ∧ SafePairs ff rest := by simpa [SafePairs] using h
-    simp only [pairsToks, List.cons_append, List.append_assoc]
-    rw [clean_plain_cons 10 _ (by decide), clean_plain_cons 9 _ (by decide), clean_cvToks ff k hk,
-      clean_plain_cons 58 _ (by decide), clean_plain_cons 32 _ (by decide), clean_cvToks ff v hv]
-    cases rest with
-    | nil => simp [pairsToks]
-    | cons w ws' =>
-      simp only [List.isEmpty_cons, Bool.not_false, if_true, List.cons_append, List.nil_append]
-      rw [clean_plain_cons 44 _ (by decide), clean_plain_cons 32 _ (by decide), clean_pairsToks ff (w :: ws') hr B]
-end
-
-/-- the dumped text of a safe constant value -/
-theorem dumpCV_final (ff : Nat → Bytes) (cv : CV) (h : SafeCV ff cv) : dumpCV stdCfg ff cv = finalCV ff cv := by
-  have hc : clean (cvToks ff cv) = true := by
-    have := clean_cvToks ff cv h []
-    simpa [clean, cleanFor] using this
-  rw [dumpCV, printCV_toks, finish_rend _ hc, rendF_cvToks]
+theorem dumpCV_final (ff : Nat → Bytes) (cv : CV) : dumpCV stdCfg ff cv = finalCV ff cv := printCV_final ff cv
 
 end Dump
 
@@ -772,86 +606,20 @@ namespace Dump
 def finalAP : List (Bytes × Bytes) → Bytes
   | [] => []
   | (k, v) :: rest =>
-    k ++ (32 :: 61 :: 32 :: 34 :: (qEsc v ++ (34 :: ((if !rest.isEmpty then [44, 32] else []) ++ finalAP rest))))
+    k ++ (32 :: 61 :: 32 :: (quoteVal stdCfg v ++ ((if !rest.isEmpty then [44, 32] else []) ++ finalAP rest)))
 
 def finalAnn (l : List Ann) : Bytes := if l.isEmpty then [] else 40 :: (finalAP (annFlatten l) ++ [41])
 
-def apToks (key : Bytes) (lastAnn : Bool) : List Bytes → List Tok
-  | [] => []
-  | v :: vs =>
-    key.map tk ++ (.plain 32 :: .plain 61 :: .plain 32 :: (litToks v
-      ++ ((if !lastAnn || !vs.isEmpty then [.plain 44, .plain 32] else []) ++ apToks key lastAnn vs)))
-
-def alToks : List Ann → List Tok
-  | [] => []
-  | a :: rest => apToks a.key rest.isEmpty a.vals ++ alToks rest
-
-def annToks (a : List Ann) : List Tok := if a.isEmpty then [] else .plain 40 :: (alToks a ++ [.plain 41])
-
-theorem annPairs_toks (key : Bytes) (last : Bool) (vs : List Bytes) :
-    annPairs stdCfg key last vs = rend r0 (apToks key last vs) := by
+theorem annPairs_final (key : Bytes) (last : Bool) (vs : List Bytes) (tail : List (Bytes × Bytes)) (hl : last = tail.isEmpty) :
+    annPairs stdCfg key last vs ++ finalAP tail = finalAP (vs.map (fun v => (key, v)) ++ tail) := by
   induction vs with
-  | nil => simp [annPairs, apToks, rend]
+  | nil => simp [annPairs]
   | cons v vs ih =>
-    simp only [annPairs, apToks, ih, rend_append, ws_append, ws_quoteVal, ws_plain key]
-    rw [ws_bytes_plain [32, 61, 32] (by decide)]
-    by_cases hc : (!last || !vs.isEmpty) = true
-    · simp only [hc, if_true]; rw [ws_bytes_plain [44, 32] (by decide)]; simp [rend, rend_append, r0]
-    · simp only [hc]; simp [rend, rend_append, r0]
-
-theorem annLoop_toks (l : List Ann) : annLoop stdCfg l = rend r0 (alToks l) := by
-  induction l with
-  | nil => simp [annLoop, alToks, rend]
-  | cons a rest ih => simp [annLoop, alToks, rend_append, annPairs_toks, ih]
-
-theorem printAnnotation_toks (l : List Ann) : printAnnotation stdCfg l = rend r0 (annToks l) := by
-  unfold printAnnotation annToks
-  cases l with
-  | nil => simp [rend]
-  | cons a rest =>
-    simp only [List.isEmpty_cons, Bool.false_eq_true, if_false, annLoop_toks, rend, rend_append]
-    rw [ws_bytes_plain [40] (by decide), ws_bytes_plain [41] (by decide)]
-    simp [rend, r0]
-
-/-- keys without `#`/`\\`, values DumpSafe -/
-def SafeAnns (l : List Ann) : Prop := ∀ a ∈ l, textInert a.key = true ∧ ∀ v ∈ a.vals, DumpSafe v = true
-
-theorem clean_apToks (key : Bytes) (last : Bool) (vs : List Bytes) (hk : textInert key = true)
-    (hv : ∀ v ∈ vs, DumpSafe v = true) (B : List Tok) : clean (apToks key last vs ++ B) = clean B := by
-  induction vs with
-  | nil => simp [apToks]
-  | cons v vs ih =>
-    simp only [apToks, List.append_assoc, List.cons_append]
-    rw [clean_text key _ hk, clean_plain_cons 32 _ (by decide), clean_plain_cons 61 _ (by decide),
-      clean_plain_cons 32 _ (by decide), clean_lit v _ (hv v (by simp))]
-    have ih' := ih (fun w hw => hv w (by simp [hw]))
-    by_cases hc : (!last || !vs.isEmpty) = true
-    · simp only [hc, if_true, List.cons_append, List.nil_append]
-      rw [clean_plain_cons 44 _ (by decide), clean_plain_cons 32 _ (by decide), ih']
-    · simp only [hc]; simpa using ih'
-
-theorem clean_alToks (l : List Ann) (h : SafeAnns l) (B : List Tok) : clean (alToks l ++ B) = clean B := by
-  induction l with
-  | nil => simp [alToks]
-  | cons a rest ih =>
-    simp only [alToks, List.append_assoc]
-    rw [clean_apToks a.key _ a.vals (h a (by simp)).1 (h a (by simp)).2, ih (fun b hb => h b (by simp [hb]))]
-
-theorem rendF_apToks (key : Bytes) (last : Bool) (vs : List Bytes) (tail : List (Bytes × Bytes)) (hl : last = tail.isEmpty) :
-    rend rF (apToks key last vs) ++ finalAP tail = finalAP (vs.map (fun v => (key, v)) ++ tail) := by
-  induction vs with
-  | nil => simp [apToks, rend]
-  | cons v vs ih =>
-    simp only [apToks, rend_append, rend, rF, rendF_plain, rendF_litToks, List.map_cons, List.cons_append, finalAP,
-      List.append_assoc, List.nil_append]
+    simp only [annPairs, ws, List.map_cons, List.cons_append, finalAP, List.append_assoc]
     have hcomma : (!last || !vs.isEmpty) = !(vs.map (fun v => (key, v)) ++ tail).isEmpty := by
       subst hl; cases vs <;> cases tail <;> simp
-    rw [← hcomma]
-    by_cases hc : (!last || !vs.isEmpty) = true
-    · simp only [hc, if_true, rend, rF, List.cons_append, List.nil_append]
-      rw [← ih]
-    · simp only [hc]
-      rw [← ih]; simp [rend]
+    rw [← hcomma, ih]
+    simp
 
 theorem annFlatten_isEmpty (l : List Ann) (h : ∀ a ∈ l, a.vals ≠ []) : (annFlatten l).isEmpty = l.isEmpty := by
   cases l with
@@ -862,35 +630,24 @@ theorem annFlatten_isEmpty (l : List Ann) (h : ∀ a ∈ l, a.vals ≠ []) : (an
     | nil => exact absurd hv this
     | cons v vs => simp [annFlatten, hv]
 
-theorem rendF_alToks (l : List Ann) (h : ∀ a ∈ l, a.vals ≠ []) : rend rF (alToks l) = finalAP (annFlatten l) := by
+theorem annLoop_final (l : List Ann) (h : ∀ a ∈ l, a.vals ≠ []) : annLoop stdCfg l = finalAP (annFlatten l) := by
   induction l with
-  | nil => simp [alToks, annFlatten, rend, finalAP]
+  | nil => simp [annLoop, annFlatten, finalAP]
   | cons a rest ih =>
     have hr : ∀ b ∈ rest, b.vals ≠ [] := fun b hb => h b (by simp [hb])
-    simp only [alToks, rend_append, annFlatten, ih hr]
-    exact rendF_apToks a.key rest.isEmpty a.vals (annFlatten rest) (annFlatten_isEmpty rest hr).symm
+    simp only [annLoop, annFlatten, ih hr]
+    exact annPairs_final a.key rest.isEmpty a.vals (annFlatten rest) (annFlatten_isEmpty rest hr).symm
 
-theorem dumpAnnotations_final (l : List Ann) (hs : SafeAnns l) (hne : ∀ a ∈ l, a.vals ≠ []) :
+theorem dumpAnnotations_final (l : List Ann) (hne : ∀ a ∈ l, a.vals ≠ []) :
     dumpAnnotations stdCfg l = finalAnn l := by
-  have hc : clean (annToks l) = true := by
-    unfold annToks
-    cases l with
-    | nil => simp [clean, cleanFor]
-    | cons a rest =>
-      simp only [List.isEmpty_cons, Bool.false_eq_true, if_false]
-      rw [clean_plain_cons 40 _ (by decide), clean_alToks _ hs, clean_plain_cons 41 _ (by decide)]
-      simp [clean, cleanFor]
-  rw [dumpAnnotations, printAnnotation_toks, finish_rend _ hc]
-  unfold annToks finalAnn
+  unfold dumpAnnotations printAnnotation finalAnn
   cases l with
-  | nil => simp [rend]
-  | cons a rest =>
-    simp only [List.isEmpty_cons, Bool.false_eq_true, if_false, rend, rend_append, rF, rendF_alToks _ hne]
-    simp
+  | nil => simp
+  | cons a rest => simp [ws, annLoop_final _ hne]
 
 /-! reader -/
 
-def PairsOK (ps : List (Bytes × Bytes)) : Prop := ∀ p ∈ ps, IdentOK p.1 ∧ LexSafe p.2
+def PairsOK (ps : List (Bytes × Bytes)) : Prop := ∀ p ∈ ps, IdentOK p.1 ∧ Representable p.2 = true
 
 theorem finalAP_head (k v : Bytes) (rest : List (Bytes × Bytes)) (hk : IdentOK k) (Z : Bytes) :
     ∃ c t, finalAP ((k, v) :: rest) ++ Z = c :: t ∧ isLetter c = true := by
@@ -901,6 +658,27 @@ theorem readAnnPairs_close (f : Nat) (rest : Bytes) : readAnnPairs (f + 1) (41 :
   rw [readAnnPairs]; simp [skipWs, dropP, isWs]
 
 theorem term_sp_eq (X : Bytes) : Term (32 :: X) := by simp [Term]
+
+theorem readAnnPairs_step (f c : Nat) (r v X : Bytes) (hc : isLetter c = true) (hr : r.all isIdChar = true)
+    (hv : Representable v = true) :
+    readAnnPairs (f + 1) (c :: (r ++ (32 :: 61 :: 32 :: (quoteVal stdCfg v ++ X))))
+      = (readAnnPairs f (skipSep (skipIndent X))).map fun p => ((c :: r, v) :: p.1, p.2) := by
+  have hlf := letter_facts hc
+  have hne41 : c ≠ 41 := by simp [isLetter] at hc; omega
+  obtain ⟨cq, tq, hq, hcq⟩ := quoteVal_head v
+  have hqws : isWs cq = false := by rcases hcq with h | h <;> subst h <;> rfl
+  have hlit := readLiteral_quoteVal v X hv
+  rw [readAnnPairs, skipWs_ne c _ hlf.1]
+  split
+  · rename_i r' heq; injection heq with h1 _; exact absurd h1 hne41
+  · rw [readIdent_ok c r _ hc hr (term_sp_eq _)]
+    have hsw : skipWs (32 :: 61 :: 32 :: (quoteVal stdCfg v ++ X)) = 61 :: 32 :: (quoteVal stdCfg v ++ X) := by
+      simp [skipWs, dropP, isWs]
+    simp only [hsw]
+    have hsw2 : skipWs (32 :: (quoteVal stdCfg v ++ X)) = quoteVal stdCfg v ++ X := by
+      rw [hq, List.cons_append, skipWs, dropP_cons_true _ _ _ (by rfl)]
+      exact dropP_cons_false _ _ _ hqws
+    simp only [hsw2, hlit]
 
 theorem readAP_final : ∀ (ps : List (Bytes × Bytes)), PairsOK ps → ∀ rest f, ps.length < f →
     readAnnPairs f (finalAP ps ++ 41 :: rest) = some (ps, skipIndent rest)
@@ -913,53 +691,32 @@ theorem readAP_final : ∀ (ps : List (Bytes × Bytes)), PairsOK ps → ∀ rest
     have hps : PairsOK ps := fun p hp => hok p (by simp [hp])
     obtain ⟨f', rfl⟩ : ∃ f', f = f' + 1 := ⟨f - 1, by simp at hf; omega⟩
     obtain ⟨c, r, rfl, hc, hr⟩ := hk
-    have hlf := letter_facts hc
-    rw [readAnnPairs]
     simp only [finalAP, List.cons_append, List.append_assoc]
-    rw [skipWs_ne c _ hlf.1]
-    have hne41 : c ≠ 41 := by simp [isLetter] at hc; omega
-    have hid : readIdent (c :: (r ++ (32 :: 61 :: 32 :: 34 :: (qEsc v ++ (34 :: ((if (!ps.isEmpty) = true then [44, 32] else []) ++ (finalAP ps ++ 41 :: rest)))))))
-        = some (c :: r, 32 :: 61 :: 32 :: 34 :: (qEsc v ++ (34 :: ((if (!ps.isEmpty) = true then [44, 32] else []) ++ (finalAP ps ++ 41 :: rest))))) :=
-      readIdent_ok c r _ hc hr (term_sp_eq _)
-    have hlit := readLiteral_final v ((if (!ps.isEmpty) = true then [44, 32] else []) ++ (finalAP ps ++ 41 :: rest)) hv
-    simp only [List.cons_append, List.append_assoc, List.nil_append] at hlit
-    split
-    · rename_i r' heq; injection heq with h1 _; exact absurd h1 hne41
-    · simp only [hid]
-      have hsw : skipWs (32 :: 61 :: 32 :: 34 :: (qEsc v ++ (34 :: ((if (!ps.isEmpty) = true then [44, 32] else []) ++ (finalAP ps ++ 41 :: rest)))))
-          = 61 :: 32 :: 34 :: (qEsc v ++ (34 :: ((if (!ps.isEmpty) = true then [44, 32] else []) ++ (finalAP ps ++ 41 :: rest)))) := by
-        simp [skipWs, dropP, isWs]
-      rw [hsw]
-      simp only []
-      have hsw2 : skipWs (32 :: 34 :: (qEsc v ++ (34 :: ((if (!ps.isEmpty) = true then [44, 32] else []) ++ (finalAP ps ++ 41 :: rest)))))
-          = 34 :: (qEsc v ++ (34 :: ((if (!ps.isEmpty) = true then [44, 32] else []) ++ (finalAP ps ++ 41 :: rest)))) := by
-        simp [skipWs, dropP, isWs]
-      rw [hsw2, hlit]
-      simp only []
-      cases ps with
-      | nil =>
-        simp only [List.isEmpty_nil, Bool.not_true, Bool.false_eq_true, if_false, List.nil_append, finalAP]
-        rw [skipIndent_ne 41 _ (by rfl)]
-        have : skipSep (41 :: rest) = 41 :: rest := by simp [skipSep, skipWs, dropP, isWs]
-        rw [this]
-        have h0 := readAP_final [] hps rest f' (by simp at hf ⊢; omega)
-        simp only [finalAP, List.nil_append] at h0
-        rw [h0]; rfl
-      | cons p ps' =>
-        obtain ⟨k2, v2⟩ := p
-        simp only [List.isEmpty_cons, Bool.not_false, if_true, List.cons_append, List.nil_append]
-        rw [skipIndent_ne 44 _ (by rfl)]
-        obtain ⟨c2, t2, hct, hc2⟩ := finalAP_head k2 v2 ps' (hps (k2, v2) (by simp)).1 (41 :: rest)
-        have hss : skipSep (44 :: 32 :: (finalAP ((k2, v2) :: ps') ++ 41 :: rest)) = finalAP ((k2, v2) :: ps') ++ 41 :: rest := by
-          rw [hct]
-          have hni : isIndent c2 = false := by
-            have := (letter_facts hc2).1; simp [isWs] at this; simp [isIndent]; omega
-          have e1 : skipWs (44 :: 32 :: c2 :: t2) = 44 :: 32 :: c2 :: t2 := skipWs_ne 44 _ (by rfl)
-          simp only [skipSep, e1]
-          rw [skipIndent, dropP_cons_true _ _ _ (by rfl)]
-          exact dropP_cons_false _ _ _ hni
-        rw [hss, readAP_final ((k2, v2) :: ps') hps rest f' (by simp at hf ⊢; omega)]
-        rfl
+    rw [readAnnPairs_step f' c r v _ hc hr hv]
+    cases ps with
+    | nil =>
+      simp only [List.isEmpty_nil, Bool.not_true, Bool.false_eq_true, if_false, List.nil_append, finalAP]
+      rw [skipIndent_ne 41 _ (by rfl)]
+      have : skipSep (41 :: rest) = 41 :: rest := by simp [skipSep, skipWs, dropP, isWs]
+      rw [this]
+      have h0 := readAP_final [] hps rest f' (by simp at hf ⊢; omega)
+      simp only [finalAP, List.nil_append] at h0
+      rw [h0]; rfl
+    | cons p ps' =>
+      obtain ⟨k2, v2⟩ := p
+      simp only [List.isEmpty_cons, Bool.not_false, if_true, List.cons_append, List.nil_append]
+      rw [skipIndent_ne 44 _ (by rfl)]
+      obtain ⟨c2, t2, hct, hc2⟩ := finalAP_head k2 v2 ps' (hps (k2, v2) (by simp)).1 (41 :: rest)
+      have hss : skipSep (44 :: 32 :: (finalAP ((k2, v2) :: ps') ++ 41 :: rest)) = finalAP ((k2, v2) :: ps') ++ 41 :: rest := by
+        rw [hct]
+        have hni : isIndent c2 = false := by
+          have := (letter_facts hc2).1; simp [isWs] at this; simp [isIndent]; omega
+        have e1 : skipWs (44 :: 32 :: c2 :: t2) = 44 :: 32 :: c2 :: t2 := skipWs_ne 44 _ (by rfl)
+        simp only [skipSep, e1]
+        rw [skipIndent, dropP_cons_true _ _ _ (by rfl)]
+        exact dropP_cons_false _ _ _ hni
+      rw [hss, readAP_final ((k2, v2) :: ps') hps rest f' (by simp at hf ⊢; omega)]
+      rfl
 
 theorem finalAP_length (ps : List (Bytes × Bytes)) (h : PairsOK ps) : ps.length ≤ (finalAP ps).length := by
   induction ps with
@@ -1018,23 +775,8 @@ theorem rereadPairs_id (ff : Nat → Bytes) : ∀ m : List (CV × CV), rereadPai
   | (k, v) :: r => by simp [rereadPairs, reread_id ff k, reread_id ff v, rereadPairs_id ff r]
 end
 
-theorem identOK_inert {s : Bytes} (h : IdentOK s) : textInert s = true := by
-  obtain ⟨c, r, rfl, hc, hr⟩ := h
-  have key : ∀ x, isIdChar x = true → (x != 35 && x != 92) = true := by
-    intro x hx
-    simp [isIdChar, isLetter, isDigit] at hx
-    simp; omega
-  simp only [textInert, List.all_cons, Bool.and_eq_true]
-  refine ⟨by simpa using key c (by simp [isIdChar, hc]), ?_⟩
-  rw [List.all_eq_true] at hr ⊢
-  intro x hx
-  exact key x (hr x hx)
-
 /-- annotation lists as the parser builds them, with values the dumper can write -/
-def AnnsOK (l : List Ann) : Prop := ∀ a ∈ l, IdentOK a.key ∧ ∀ v ∈ a.vals, DumpSafe v = true
-
-theorem AnnsOK.safe {l : List Ann} (h : AnnsOK l) : SafeAnns l :=
-  fun a ha => ⟨identOK_inert (h a ha).1, (h a ha).2⟩
+def AnnsOK (l : List Ann) : Prop := ∀ a ∈ l, IdentOK a.key ∧ ∀ v ∈ a.vals, Representable v = true
 
 theorem AnnsOK.pairs {l : List Ann} (h : AnnsOK l) : PairsOK (annFlatten l) := by
   induction l with
@@ -1043,29 +785,8 @@ theorem AnnsOK.pairs {l : List Ann} (h : AnnsOK l) : PairsOK (annFlatten l) := b
     intro p hp
     simp only [annFlatten, List.mem_append, List.mem_map] at hp
     rcases hp with ⟨v, hv, rfl⟩ | hp
-    · exact ⟨(h a (by simp)).1, DumpSafe.lexSafe ((h a (by simp)).2 v hv)⟩
+    · exact ⟨(h a (by simp)).1, (h a (by simp)).2 v hv⟩
     · exact ih (fun b hb => h b (by simp [hb])) p hp
-
-theorem finish_cv_anns (ff : Nat → Bytes) (cv : CV) (l : List Ann) (hcv : SafeCV ff cv) (hl : SafeAnns l)
-    (hne : ∀ a ∈ l, a.vals ≠ []) :
-    finish stdCfg (printCV stdCfg ff cv ++ printAnnotation stdCfg l) = finalCV ff cv ++ finalAnn l := by
-  have hca : clean (annToks l) = true := by
-    unfold annToks
-    cases l with
-    | nil => simp [clean, cleanFor]
-    | cons a rest =>
-      simp only [List.isEmpty_cons, Bool.false_eq_true, if_false]
-      rw [clean_plain_cons 40 _ (by decide), clean_alToks _ hl, clean_plain_cons 41 _ (by decide)]
-      simp [clean, cleanFor]
-  have hc : clean (cvToks ff cv ++ annToks l) = true := by rw [clean_cvToks ff cv hcv]; exact hca
-  rw [printCV_toks, printAnnotation_toks, ← rend_append, finish_rend _ hc, rend_append, rendF_cvToks]
-  congr 1
-  unfold annToks finalAnn
-  cases l with
-  | nil => simp [rend]
-  | cons a rest =>
-    simp only [List.isEmpty_cons, Bool.false_eq_true, if_false, rend, rend_append, rF, rendF_alToks _ hne]
-    simp
 
 theorem term_finalAnn (l : List Ann) (rest : Bytes) (h : Term rest) : Term (finalAnn l ++ rest) := by
   unfold finalAnn
